@@ -57,8 +57,10 @@ pub fn replay_set(rep: &mut Report, rec: &J) {
 		if obs != exp {
 			rep.mismatch("C20.set", json!({"what": "length / emptiness / rendering / membership differ from set semantics", "vector": rec, "expected": exp, "observed": obs}));
 		}
-		if let Some(r) = iter_routes(&|| s.iter(), &|k| json!(kind_no(k))) {
-			rep.mismatch("C20.iter", json!({"what": "consuming the set's iterator this way does not give the kinds next() gives", "vector": rec, "route": r}));
+		match guarded(|| iter_routes(&|| s.iter(), &|k| json!(kind_no(k)))) {
+			Ok(None) => (),
+			Ok(Some(r)) => rep.mismatch("C20.iter", json!({"what": "consuming the set's iterator this way does not give the kinds next() gives", "vector": rec, "route": r})),
+			Err(p) => rep.mismatch("C20.iter", json!({"what": "consuming the set's iterator panicked", "vector": rec, "panic": p})),
 		}
 		// format specifications (width, precision, alignment, alternate) apply to the rendering as a whole or not at all:
 		// the text is the documented one, possibly padded / truncated as one string - never reshaped piece by piece
